@@ -101,7 +101,9 @@ Definition next_phase (ph : phase) (m : mstep) : option phase :=
   | PChild k _ nx, MSidecar => Some (PChild k true nx)
   | PChild k sc nx, MBcast | PChild k sc nx, MIndexInsert => Some (PChild k sc nx)
   | PChild k sc _, MSetNext n => if n =? k then Some (PChild k sc true) else None
-  | PChild _ true true, MUnlock => Some PIdle
+  (* `save_index(..)?` of create_continuity_locked returned Err: the child's seq-0 frame is logged, sidecar written,
+     listed in memory; its counter was never recorded; the guard is dropped (k = 1, nx = false) *)
+  | PChild k true nx, MUnlock => if nx || (k =? 1) then Some PIdle else None
   | PIdle, MTaskLock => Some PTLocked
   | PTLocked, MTaskChoose => Some PTChosen
   | PTChosen, MBcast => Some PTChosen
